@@ -34,8 +34,13 @@ def check_C01(c):
     consts = {"MaxRank": 4, "MaxDim": 3, "MaxDim4": 2, "Ctors": {S("C"), S("F"), S("Fconv"), S("Cpre"), S("Fpre")}, "Rich": not q}
     if not q:
         consts.update({"MaxDim": 4})
+    consts["Deep"] = False
     cases = c.tlc("MC_addr", "addr", consts, ["TypeOK", "CopiesDisjoint", "TableBijective", "Emit"])
     c.replay("addr", cases, dtypes="all", pals="ident", rotate=3 if q else 0)
+    # layouts three steps from construction (T;T;T on column-major tensors and on sliced views): fewer element types
+    deep = dict(consts, Deep=True, Ctors={S("C"), S("F")}, MaxRank=3, MaxDim=3 if q else 3)
+    cases = c.tlc("MC_addr", "addr-deep", deep, ["TypeOK", "CopiesDisjoint", "Emit"])
+    c.replay("addr-deep", cases, dtypes="sizes", pals="ident", rotate=1 if q else 2)
     c.rep.rule = ("TLC enumerates every shape of rank 0-4 x constructor {row-major, column-major declared, column-major converted} "
                   "x layout {as built, one slice, one transposition} and emits the complete coordinate->cell table over the box "
                   "[-2,dim+1]^rank plus wrong-arity coordinates; each table entry is one At and one SetAt on the real tensor "
@@ -86,7 +91,7 @@ def check_C03(c):
                                   MaxLen=2, WithSlice=False, PermPalette=False, Alphabet=ALL, BothTargets=not q)))
     # programs of length 3 on vectors, vector-shaped matrices and small matrices (T; Transpose; UT and the like)
     jobs.append(("trans-len3-lo", dict(MinRank=1, MaxRank=2, MaxDim=3, MaxDimHi=3, HiRank=3, Ctors={S("C")},
-                                       MaxLen=3, WithSlice=False, PermPalette=False, Alphabet=ALL, BothTargets=False)))
+                                       MaxLen=3, WithSlice=False, PermPalette=False, Alphabet=ALL | {S("FullView")}, BothTargets=False)))
     if not q:
         jobs.append(("trans-len3", dict(MinRank=2, MaxRank=3, MaxDim=3, MaxDimHi=2, HiRank=3, Ctors={S("C")},
                                         MaxLen=3, WithSlice=False, PermPalette=False, Alphabet=ALL, BothTargets=False)))
@@ -141,7 +146,8 @@ def check_C04(c):
         r = run_tlc(c.scr, "MC_views", cfgp, cases)
         c.rep.add_tlc(name, r)
         log("TLC %s: %d distinct, %d cases, %.1fs" % (name, r.distinct, r.cases, r.wall))
-        c.replay(name, cases, dtypes="all", pals="ident", rotate=3 if q else 0)
+        # (the non-finite palette matters for the conversions: NaN, the infinities and signed zeros must survive a copy)
+        c.replay(name, cases, dtypes="all", pals="ident,nonfinite", rotate=3 if q else 0, extra=(["-palrotate", "1"] if q else []))
     c.rep.rule = ("TLC enumerates every view obtainable by <=2 slice/transpose steps from shapes of rank 1-4 (row- and column-major "
                   "parents) x every whole-tensor write {Memset, Zero, unsafe unary, unsafe binary with scalar and with a fresh tensor, "
                   "Copy into the view, SetAt sweep, single SetAt through parent and view} and every copy {Clone, Materialize, SafeT, "
@@ -200,12 +206,13 @@ def check_C13(c):
 
 
 LAYS = ("C", "T", "Tp", "Row", "Col", "Step", "Mat")
+LAYS2 = LAYS + ("ColT", "StepT", "TCol", "TClone", "TView")     # composite layouts: a view that is also lazily transposed, a view / clone of a transposed tensor
 
 
-def elem_consts(q, kinds, forms=("TT", "TS", "ST"), laya=LAYS, layb=LAYS, modes=("safe",), layd=("C",), mismatch=True, **kw):
+def elem_consts(q, kinds, forms=("TT", "TS", "ST"), laya=LAYS2, layb=LAYS, modes=("safe",), layd=("C",), mismatch=True, **kw):
     k = dict(MinRank=0, MaxRank=3 if q else 4, MaxDim=3, MaxDimHi=2, HiRank=3 if q else 4,
              Kinds={S(x) for x in kinds}, Forms={S(x) for x in forms}, LayA={S(x) for x in laya}, LayB={S(x) for x in layb},
-             Modes={S(x) for x in modes}, LayD={S(x) for x in layd}, ShapeMismatch=mismatch)
+             Modes={S(x) for x in modes}, LayD={S(x) for x in layd}, ShapeMismatch=mismatch, Chain=False)
     k.update(kw)
     return k
 
@@ -216,7 +223,7 @@ PALS_ARITH = "ident,signed,edge,zerodiv,nonfinite"
 
 def check_C06(c):
     q = c.quick
-    cases = c.tlc("MC_elem", "elem-arith", elem_consts(q, ["Arith"]), ELEM_INV)
+    cases = c.tlc("MC_elem", "elem-arith", elem_consts(q, ["Arith"], Chain=True), ELEM_INV)
     c.replay("elem-arith", cases, dtypes="numeric,string,bool", pals=PALS_ARITH, rotate=8 if q else 0,
              extra=["-ops", "all", "-entries", "func,method"] + (["-palrotate", "3"] if q else []))
     c.rep.rule = ("TLC enumerates the STRUCTURE of elementwise arithmetic: shapes of rank 0-4 x {tensor-tensor, tensor-scalar, scalar-tensor} "
@@ -236,13 +243,18 @@ ALLMODES = ("safe", "unsafe", "reuse", "incr", "reuseA", "reuseB")
 def check_C07(c):
     q = c.quick
     lay = ("C", "T", "Col", "Step") if q else LAYS
-    for kinds, name, dts, pals in ((["Arith"], "modes-arith", "numeric", "ident,signed"),
-                                   (["Cmp"], "modes-cmp", "ordered,bool,complex128", "ident,signed"),
-                                   (["Unary"], "modes-unary", "numeric,string", "ident,signed")):
+    for kinds, name, dts, pals in ((["Arith"], "modes-arith", "numeric", "ident,signed,nonfinite"),
+                                   (["Cmp"], "modes-cmp", "ordered,bool,complex128", "ident,signed,nonfinite"),
+                                   (["Unary"], "modes-unary", "numeric,string", "ident,signed,nonfinite")):
         k = elem_consts(q, kinds, laya=lay, layb=("C", "T", "Col") if q else lay, modes=ALLMODES,
                         layd=("C", "Row", "Col") if q else ("C", "Row", "Col", "T"), mismatch=False,
                         MaxRank=2 if q else 3, MaxDim=3 if q else 3, HiRank=3)
         cases = c.tlc("MC_elem", name, k, ELEM_INV)
+        if q and name == "modes-cmp":
+            # comparisons are cheap: every operator on a fixed set of element types with ties and non-finite values, no rotation
+            c.replay(name, cases, dtypes="float64,float32,int16,uint8,bool,complex128", pals="signed,nonfinite",
+                     extra=["-ops", "all", "-entries", "func,method"])
+            continue
         c.replay(name, cases, dtypes=dts, pals=pals, rotate=3 if q else 0,
                  extra=["-ops", "all", "-entries", "func,method"] + (["-oprotate", "3", "-palrotate", "1"] if q else []))
     c.rep.rule = ("TLC enumerates, for arithmetic, comparison and unary operations, the option modes {safe, unsafe, reuse, incr, reuse "
@@ -283,7 +295,7 @@ def check_C12(c):
 def check_C08(c):
     q = c.quick
     inv = ["TypeOK", "CopiesDisjoint", "FibresPartition", "Emit"]
-    k = dict(MinRank=1, MaxRank=3 if q else 4, MaxDim=3, MaxDimHi=2, HiRank=3 if q else 4, LayA={S(x) for x in LAYS},
+    k = dict(MinRank=1, MaxRank=3 if q else 4, MaxDim=3, MaxDimHi=2, HiRank=3 if q else 4, LayA={S(x) for x in LAYS2},
              Kinds={S("Reduce"), S("Arg")})
     cases = c.tlc("MC_reduce", "reduce", k, inv)
     c.replay("reduce", cases, dtypes="ordered,complex128,string", pals="ident,signed,edge,nonfinite", rotate=6 if q else 0,
@@ -306,21 +318,24 @@ def check_C08(c):
 def check_C09(c):
     q = c.quick
     inv = ["TypeOK", "CopiesDisjoint", "Emit"]
-    lay = ("C", "T", "Col", "Row", "ColT", "TCol") if q else ("C", "T", "Tp", "Row", "Col", "Step", "Mat", "ColT", "StepT", "TCol")
-    jobs = [("linalg-mat", dict(MaxDim=2 if q else 3, MaxRankT=2, LayA={S(x) for x in lay}, LayB={S(x) for x in lay}, LayD={S("C")},
+    lay = ("C", "T", "Col", "Row", "ColT", "TCol", "TClone") if q else ("C", "T", "Tp", "Row", "Col", "Step", "Mat", "ColT", "StepT", "TCol", "TClone", "TView")
+    jobs = [("linalg-mat", dict(MaxDim=2 if q else 3, MaxRankT=2, LayA={S(x) for x in lay}, LayB={S(x) for x in lay}, LayD={S("C")}, Chain=False,
                                 Modes={S("safe"), S("reuse"), S("incr")},
                                 Kinds={S(x) for x in ("MatMul", "MatVecMul", "Inner", "Outer", "Trace")})),
             ("linalg-tensor", dict(MaxDim=2, MaxRankT=3, LayA={S(x) for x in (("C", "T", "Col") if q else lay)},
-                                   LayB={S(x) for x in (("C", "Col") if q else lay)}, LayD={S("C")}, Modes={S("safe")},
+                                   LayB={S(x) for x in (("C", "Col") if q else lay)}, LayD={S("C")}, Chain=False, Modes={S("safe")},
                                    Kinds={S("TensorMul"), S("Dot")})),
             # destinations with a layout of their own (a lazily transposed tensor, a view, a window) for reuse and incr
             ("linalg-dest", dict(MaxDim=3, MaxRankT=2, LayA={S("C"), S("T")}, LayB={S("C"), S("Col")}, LayD={S(x) for x in ("T", "Col", "Row", "Step")},
-                                 Modes={S("reuse"), S("incr")}, Kinds={S(x) for x in ("MatMul", "MatVecMul", "Outer")}))]
+                                 Chain=False, Modes={S("reuse"), S("incr")}, Kinds={S(x) for x in ("MatMul", "MatVecMul", "Outer")})),
+            # a reuse tensor of the right size but another shape (re-laid-out by the library), and the result used again
+            ("linalg-chain", dict(MaxDim=3, MaxRankT=2, LayA={S("C"), S("T")}, LayB={S("C")}, LayD={S(x) for x in ("C", "Crev", "Tpend", "T")},
+                                  Chain=True, Modes={S("safe"), S("reuse")}, Kinds={S(x) for x in ("MatMul", "Outer")}))]
     # rank-4 operands (dims <= 2) in general contractions
-    jobs.append(("linalg-tensor4", dict(MaxDim=2, MaxRankT=4, LayA={S("C")}, LayB={S("C")} if q else {S("C"), S("T")}, LayD={S("C")}, Modes={S("safe")},
+    jobs.append(("linalg-tensor4", dict(MaxDim=2, MaxRankT=4, LayA={S("C")}, LayB={S("C")} if q else {S("C"), S("T")}, LayD={S("C")}, Chain=False, Modes={S("safe")},
                                         Kinds={S("TensorMul4")})))
     if not q:
-        jobs.append(("linalg-mat4", dict(MaxDim=4, MaxRankT=2, LayA={S("C"), S("T"), S("Col")}, LayB={S("C"), S("T"), S("Col")}, LayD={S("C")},
+        jobs.append(("linalg-mat4", dict(MaxDim=4, MaxRankT=2, LayA={S("C"), S("T"), S("Col")}, LayB={S("C"), S("T"), S("Col")}, LayD={S("C")}, Chain=False,
                                          Modes={S("safe"), S("reuse"), S("incr")}, Kinds={S("MatMul"), S("MatVecMul"), S("Outer")})))
     for name, k in jobs:
         cases = c.tlc("MC_linalg", name, k, inv)
@@ -336,12 +351,13 @@ def check_C09(c):
 
 def assemble_jobs(q):
     lay = ("C", "T", "Col", "Step") if q else ("C", "T", "Tp", "Row", "Col", "Step", "Mat")
+    lay1 = lay + ("ColT", "TCol", "TClone", "TView")       # single-operand job: composite layouts too
     jobs = [("asm-concat", dict(MinRank=1, MaxRank=2 if q else 3, MaxDim=2, MaxDimHi=2, HiRank=3, Lays={S(x) for x in lay},
                                 MaxOps=3 if q else 3, Kinds={S("Concat"), S("ConcatMismatch")}, RepCounts={0, 1, 2})),
             ("asm-stack", dict(MinRank=1, MaxRank=2 if q else 3, MaxDim=2, MaxDimHi=2, HiRank=3, Lays={S(x) for x in lay},
                                MaxOps=3, Kinds={S("Stack")}, RepCounts={0, 1, 2})),
             ("asm-repeat", dict(MinRank=1, MaxRank=3 if q else 4, MaxDim=3, MaxDimHi=2, HiRank=3 if q else 4,
-                                Lays={S(x) for x in (lay if q else lay)}, MaxOps=1, Kinds={S("Repeat")}, RepCounts={0, 1, 2}))]
+                                Lays={S(x) for x in lay1}, MaxOps=1, Kinds={S("Repeat")}, RepCounts={0, 1, 2}))]
     if not q:
         jobs.append(("asm-concat4", dict(MinRank=1, MaxRank=2, MaxDim=2, MaxDimHi=2, HiRank=3, Lays={S("C"), S("T"), S("Col")},
                                          MaxOps=4, Kinds={S("Concat"), S("Stack")}, RepCounts={1})))
@@ -399,7 +415,7 @@ def check_C16(c):
     cases = c.tlc("MC_reduce", "f-reduce", k, ["TypeOK", "Emit"])
     c.replay("f-reduce", cases, dtypes="float64,int16,uint8", pals="ident,signed", rotate=1 if q else 0, extra=["-ops", "all"])
     # products
-    k = dict(MaxDim=2 if q else 3, MaxRankT=2, LayA={S(x) for x in ("C", "F", "FT")}, LayB={S(x) for x in ("C", "F", "FT")}, LayD={S("C")},
+    k = dict(MaxDim=2 if q else 3, MaxRankT=2, LayA={S(x) for x in ("C", "F", "FT")}, LayB={S(x) for x in ("C", "F", "FT")}, LayD={S("C")}, Chain=False,
              Modes={S("safe"), S("reuse"), S("incr")}, Kinds={S(x) for x in ("MatMul", "MatVecMul", "Inner", "Outer", "Trace")})
     cases = c.tlc("MC_linalg", "f-linalg", k, ["TypeOK", "Emit"])
     c.replay("f-linalg", cases, dtypes="floatcomplex", pals="ident,signed", rotate=2 if q else 0, extra=["-entries", "func,method"])
@@ -436,7 +452,7 @@ def check_C20(c):
     k = elem_consts(q, ["Arith", "FMA"], laya=lay, layb=("C", "T", "Col"), modes=("safe", "unsafe", "reuse", "incr"), layd=("C", "Col"),
                     mismatch=False, MinRank=1, MaxRank=2 if q else 3, MaxDim=3, HiRank=3)
     corp.append(("cfg-arith", "MC_elem", k, ELEM_INV, ["-ops", "add,sub,mul,div,pow,mod", "-entries", "func,method"]))
-    k = dict(MaxDim=2 if q else 3, MaxRankT=2, LayA={S(x) for x in ("C", "T", "Col")}, LayB={S(x) for x in ("C", "T", "Col")}, LayD={S("C")},
+    k = dict(MaxDim=2 if q else 3, MaxRankT=2, LayA={S(x) for x in ("C", "T", "Col")}, LayB={S(x) for x in ("C", "T", "Col")}, LayD={S("C")}, Chain=False,
              Modes={S("safe"), S("reuse"), S("incr")}, Kinds={S(x) for x in ("MatMul", "MatVecMul", "Inner", "Outer")})
     corp.append(("cfg-linalg", "MC_linalg", k, ["TypeOK", "Emit"], ["-entries", "func,method"]))
     k = dict(MinRank=0, MaxRank=3, MaxDim=3, MaxDimHi=2 if q else 3, HiRank=3, Ctors={S("C")}, MaxLen=2, WithSlice=False, PermPalette=False,
@@ -591,7 +607,7 @@ def check_C19(c):
     k = dict(MinRank=1, MaxRank=3, MaxDim=3, MaxDimHi=2, HiRank=3, LayA={S("C"), S("T"), S("Col")}, Kinds={S("Reduce"), S("Arg")})
     cases = c.tlc("MC_reduce", "hist-reduce", k, ["TypeOK", "Emit"])
     c.replay("hist-reduce", cases, dtypes="float64", pals="ident", extra=["-ops", "all"])
-    k = dict(MaxDim=2, MaxRankT=3, LayA={S("C")}, LayB={S("C")}, LayD={S("C")}, Modes={S("safe")}, Kinds={S("TensorMul")})
+    k = dict(MaxDim=2, MaxRankT=3, LayA={S("C")}, LayB={S("C")}, LayD={S("C")}, Chain=False, Modes={S("safe")}, Kinds={S("TensorMul")})
     cases = c.tlc("MC_linalg", "hist-tensormul", k, ["TypeOK", "Emit"])
     c.replay("hist-tensormul", cases, dtypes="float64", pals="ident", extra=["-entries", "func,method"])
     c.rep.exhaustive = False
